@@ -5,8 +5,8 @@ SPEC = {
     'technique': 'symbolic execution of scaler.apply_scaling / convert_kwargs / shift_and_scale / minmax_scale / '
                  'minrange2minmax / step_scale through the numpy model, NaN-extended real arithmetic (NRA); '
                  'per-path unsat of order preservation, do/undo identity, range, continuity, NaN transparency',
-    'bounds': {'quick': 'arrays of length <= 3 with every NaN pattern, any real values; scale > 0, any shift; '
-                        'min_range >= 0 with resulting range > 0; 0..2 sorted steps with positive scales',
+    'bounds': {'quick': 'arrays of length <= 4 with every NaN pattern (step scaling: <= 3), any real values; scale > 0, any shift; '
+                        'min_range >= 0 with resulting range > 0; 0..3 sorted steps with positive scales',
                'thorough': 'arrays of length <= 4 (step scaling: <= 3), 0..3 steps (at 4 symbolic steps z3 answers unknown on the nonlinear continuity clause)'},
     'outside': 'binary64 rounding of the do/undo round trip (the inverse property is exact only over the reals); '
                'arrays longer than the bound',
@@ -216,13 +216,13 @@ def _sizes(Lmax, with_k=None):
 
 
 HARNESSES = [
-    H('K-scale-shift', k_shift, quick=_sizes(3), thorough=_sizes(4), float_model='R',
+    H('K-scale-shift', k_shift, quick=_sizes(4), thorough=_sizes(4), float_model='R',
       cover=['scaled', 'explicit shift of exactly 0'],
       doc='shift-and-scale through apply_scaling/convert_kwargs: order, NaN, default shift, explicit shift, do/undo'),
-    H('K-scale-minmax', k_minmax, quick=_sizes(3), thorough=_sizes(4), float_model='R',
+    H('K-scale-minmax', k_minmax, quick=_sizes(4), thorough=_sizes(4), float_model='R',
       cover=['all NaN passthrough', 'span below min_range', 'span above min_range', 'constant data'],
       doc='minmax-scale with min_range: order, NaN, [0,1], minimum range honoured and centred, do/undo'),
-    H('K-scale-step', k_step, quick=[(L, nm, K) for (L, nm) in _sizes(2) for K in (0, 1, 2)] + [(3, 2, 1), (3, 0, 2)],
+    H('K-scale-step', k_step, quick=[(L, nm, K) for (L, nm) in _sizes(2) for K in (0, 1, 2, 3)] + [(3, nm, K) for nm in (0, 2, 5) for K in (1, 2)],
       thorough=[(L, nm, K) for (L, nm) in _sizes(3) for K in (0, 1, 2, 3)], float_model='R',
       cover=['scaled', 'value exactly on a step'],
       doc='step-scale with K symbolic sorted steps and K+1 positive scales: order, NaN, do/undo, continuity at every step'),
